@@ -494,10 +494,9 @@ fn remap_tasks(ops: &[Op], perm: &[usize]) -> Vec<Op> {
 /// (who writes a resource, who reads it, who requires whom), selected by a mode resource that every task reads first.
 /// Every single state is violation-free.
 pub fn gen_program_v(rng: &mut Rng, cfg: &GenCfg) -> Program {
-  let ntasks = rng.range(2, 6) as usize;
-  let nres = rng.range(2, 5) as usize;
+  let (ntasks, nres) = if cfg.big { (rng.range(4, 7) as usize, rng.range(2, 4) as usize) } else { (rng.range(2, 6) as usize, rng.range(2, 5) as usize) };
   let ncases = rng.range(2, 3) as usize;
-  let mut c2 = GenCfg { exact_only_pct: cfg.exact_only_pct, ..GenCfg::default() };
+  let mut c2 = GenCfg { exact_only_pct: cfg.exact_only_pct, big: cfg.big, ..GenCfg::default() };
   c2.sim_fams_only = cfg.sim_fams_only;
   let base = gen_program_w_sized(rng, &c2, ntasks, nres);
   let mut cases: Vec<Vec<Vec<Op>>> = vec![vec![]; ntasks]; // per task: per case: ops
